@@ -104,7 +104,8 @@ def h_manager(sym, rungs=None, W=2, E=10, mode="min", max_fail=3, concrete_metri
     sym.goal("end")
 
 
-def h_scheduler(sym, geometric=None, rungs=None, W=2, E=9, mode="min", max_fail=1, max_t=4, ckpt=True, dehb=False):
+def h_scheduler(sym, geometric=None, rungs=None, W=2, E=9, mode="min", max_fail=1, max_t=4, ckpt=True, dehb=False, brackets=None,
+                concrete_metrics=False):
     """scheduler API level: never blocks, pauses exactly at milestones, resumes only paused trials to
     the next level, failed jobs do not block the bracket"""
     from syne_tune.optimizer.schedulers.synchronous.hyperband_impl import SynchronousGeometricHyperbandScheduler
@@ -116,7 +117,8 @@ def h_scheduler(sym, geometric=None, rungs=None, W=2, E=9, mode="min", max_fail=
         from syne_tune.optimizer.schedulers.synchronous.hyperband_impl import GeometricDifferentialEvolutionHyperbandScheduler
         stubs.shim_modules(["syne_tune.optimizer.schedulers.synchronous.dehb", "syne_tune.optimizer.schedulers.synchronous.dehb_bracket"])
         sch = make(GeometricDifferentialEvolutionHyperbandScheduler, cs, metric="m", mode=mode, resource_attr="r",
-                   max_resource_attr="epochs", grace_period=geometric[0], reduction_factor=geometric[1], random_seed=2)
+                   max_resource_attr="epochs", grace_period=geometric[0], reduction_factor=geometric[1], random_seed=2,
+                   **({"brackets": brackets} if brackets else {}))
     elif geometric:
         sch = make(SynchronousGeometricHyperbandScheduler, cs, metric="m", mode=mode, resource_attr="r",
                    max_resource_attr="epochs", grace_period=geometric[0], reduction_factor=geometric[1], random_seed=2)
@@ -136,7 +138,12 @@ def h_scheduler(sym, geometric=None, rungs=None, W=2, E=9, mode="min", max_fail=
         kind, tid = opts[sym.choice("c%d" % step, len(opts))]
         if kind == "suggest":
             nid = len(trials)
-            s = sch.suggest(nid)
+            try:
+                s = sch.suggest(nid)
+            except IndexError as e:
+                s = None
+                sym.violation("C05.request-for-work-raises" + ("[dehb]" if dehb else ""),
+                              "suggest(%d) raises IndexError (%s) after %d events, %d trials started" % (nid, e, step, len(trials)))
             sym.check(s is not None, "C05.request-for-work-blocks" + ("[dehb]" if dehb else ""), "suggest returned None with %d running (failed=%s)" % (len(running), sorted(failed)))
             if s.spawn_new_trial_id:
                 tid = nid
@@ -164,7 +171,7 @@ def h_scheduler(sym, geometric=None, rungs=None, W=2, E=9, mode="min", max_fail=
         elif kind == "report":
             level[tid] += 1
             r = level[tid]
-            v = sym.real("m_%d_%d_%d" % (tid, r, step), -100, 100)
+            v = float((tid * 7 + r * 3) % 11) + 0.01 * tid if concrete_metrics else sym.real("m_%d_%d_%d" % (tid, r, step), -100, 100)
             d = sch.on_trial_result(trials[tid], {"m": v, "r": r})
             sym.event("t%d r=%d -> %s" % (tid, r, d))
             if r == target[tid]:
@@ -188,6 +195,30 @@ def h_scheduler(sym, geometric=None, rungs=None, W=2, E=9, mode="min", max_fail=
         s = sch.suggest(len(trials))
         sym.check(s is not None, "C13.bracket-blocked-after-failure" if not dehb else "C05.request-for-work-blocks[dehb]", "nothing is running, yet suggest returns None (failed=%s)" % sorted(failed))
         sym.goal("drained")
+    sym.goal("end")
+
+
+def h_dehb_parent(sym, R=4):
+    """DEHB bracket manager: the table that maps (bracket offset, level) to the parent rung -- the rung of the same level in an
+    EARLIER bracket, from which mutation targets are taken inside suggest() -- for a SYMBOLIC number of brackets per
+    iteration B in [1, R] (the `brackets` argument of DEHB).  trial_id_from_parent_slot walks this table: an entry that does
+    points to a LATER bracket (delta < 0) indexes a bracket that does not exist yet: a request for work raises IndexError."""
+    from syne_tune.optimizer.schedulers.synchronous.dehb_bracket_manager import DifferentialEvolutionHyperbandBracketManager
+    B = sym.int("B", 1, R)
+    for k in range(1, R + 1):       # concretise by forking (the constructor builds lists of length B)
+        if B == k:
+            B = k
+            break
+    rungs = [(2 ** (R - 1 - i), 2 ** i) for i in range(R)]
+    mgr = DifferentialEvolutionHyperbandBracketManager(rungs_first_bracket=rungs, mode="min", num_brackets_per_iteration=B)
+    for off in range(B):
+        for _, lv in rungs[off:]:
+            delta, ri = mgr._parent_rung[(off, lv)]
+            sym.check(delta >= 0, "C05.request-for-work-raises[dehb]",
+                      "num_brackets_per_iteration=%d with %d rung levels: the parent rung of (bracket offset %d, level %d) is looked up %d bracket(s) to the "
+                      "RIGHT of the bracket asking, which a sequential run has not opened yet: IndexError inside suggest()" % (B, R, off, lv, -delta))
+    if B < R:
+        sym.goal("fewer-brackets-than-rungs")
     sym.goal("end")
 
 
@@ -225,6 +256,12 @@ def obligations(tier):
     obs.append(Ob("C05.b[dehb,geometric(1,2),max_t=2]", "props.c05:h_scheduler", dict(geometric=[1, 2], W=2, E=8, mode="max", max_fail=1, max_t=2, dehb=True),
                   bounds=dict(grace=1, rf=2, max_t=2, W=2, events=8, failures="<=1"), goals=("promotion", "failure", "end"),
                   split=(("c1", (0, 1, 2)), ("c2", (0, 1, 2, 3, 4))), budget_s=1800))
+    # DEHB with fewer brackets per iteration than rung levels (the `brackets` argument): unit level with a symbolic number of
+    # brackets, and the same through the scheduler API (sequential worker, concrete metric table, two full iterations)
+    obs.append(Ob("C05.d[dehb,parent-rung-table,R=4]", "props.c05:h_dehb_parent", dict(R=4), bounds=dict(rung_levels=4, brackets_per_iteration="symbolic in 1..4"),
+                  goals=("fewer-brackets-than-rungs", "end"), budget_s=300))
+    obs.append(Ob("C05.d[dehb,brackets=1,max_t=4,W=1]", "props.c05:h_scheduler", dict(geometric=[1, 2], W=1, E=40, mode="min", max_fail=0, max_t=4, dehb=True, brackets=1, concrete_metrics=True),
+                  bounds=dict(grace=1, rf=2, max_t=4, brackets=1, W=1, events=40, metrics="concrete table"), goals=("end",), budget_s=600))
     if not quick:
         obs.append(Ob("C05.c[manager,W=3]", "props.c05:h_manager", dict(rungs=R1, W=3, E=11, mode="min", max_fail=2), bounds=dict(rungs=R1, W=3, events=11),
                       goals=("promotion", "end"), split=(("c1", (0, 1)), ("c2", (0, 1, 2)), ("c3", (0, 1, 2, 3))), budget_s=3000, may_be_incomplete=True))
